@@ -112,7 +112,7 @@ func runC10(tier string, seed uint64) {
 			}
 			// some benign content
 			for _, b := range buckets[:min(2, len(buckets))] {
-				s.Put(b, "a", []byte("A-"+b), nil)
+				s.Put(b, "a", []byte{}, nil) // zero bytes: an object all the same, also when a key below it is addressed
 				s.Put(b, "n", []byte("N-"+b), nil)
 			}
 			before := c10Snapshot(s, probe)
@@ -134,7 +134,11 @@ func runC10(tier string, seed uint64) {
 							m = append(m, KV{"Content-Type", fmt.Sprintf("text/x-%d", j)})
 						}
 					}
-					r = s.Put(b, k, []byte(fmt.Sprintf("body-%d-%d", i, j)), m)
+					body := []byte(fmt.Sprintf("body-%d-%d", i, j))
+					if rng.Intn(5) == 0 {
+						body = []byte{} // a zero-byte object is an object, not an empty directory
+					}
+					r = s.Put(b, k, body, m)
 				case w < 65:
 					r = s.Delete(b, k)
 				case w < 75:
